@@ -147,8 +147,8 @@ fn filename_comparator(file1: &PathBuf, file2: &PathBuf) -> Ordering {
         return date_str1.cmp(date_str2);
     }
 
-    // same date, compare the file number
-    name1.cmp(name2)
+    // same date, compare the file number: a shorter name is an earlier file (".9" comes before ".10")
+    name1.len().cmp(&name2.len()).then_with(|| name1.cmp(name2))
 }
 
 #[cfg(test)]
